@@ -38,7 +38,7 @@ def assumption_texts(ids):
 def scan_cheats(spec):
     """Mechanical scan for assume / external_body / assume_specification / admit / kani::stub /
     kani::assume in the contract and harness sources that this property uses."""
-    files = [os.path.join(VERIF, 'verus', u + '.rs') for u in spec.get('verus', [])]
+    files = [os.path.join(VERIF, 'verus', u.split('@')[0] + '.rs') for u in spec.get('verus', [])]
     files += glob.glob(os.path.join(VERIF, 'verus', 'inc', '*.rs'))
     if spec.get('kani'):
         mods = set()
@@ -571,6 +571,12 @@ PROPS['C14']['verus'] = PROPS['C14'].get('verus', []) + ['c14_param_classifier',
 
 # the response builders (required members carried over, every optional member unset) are proved by Verus on the verbatim code (unit c02_builders)
 PROPS['C02']['verus'] = PROPS['C02'].get('verus', []) + ['c02_builders']
+
+# units whose extracted code contains (or may come to contain) `#[cfg(feature = ..)]` items are verified a second time with every wire-relevant
+# feature switched on (`<unit>@allfeatures`, verus --cfg): the string tables and the builders must satisfy the same contract in both extreme configurations
+for _p in ('C18', 'C15', 'C16'):
+    PROPS[_p]['verus'] = [u for u in PROPS[_p].get('verus', []) if u != 'c18_string_tables'] + ['c18_string_tables', 'c18_string_tables@allfeatures']
+PROPS['C02']['verus'] = PROPS['C02']['verus'] + ['c02_builders@allfeatures']
 
 
 # Harnesses that were written and calibrated but cannot be discharged in this sandbox (CBMC exceeds the 24 GB address-space limit
